@@ -556,7 +556,7 @@ func init() {
 	fw.Register(&fw.Property{
 		ID:     "C14",
 		Run:    runC14,
-		Rule:   "all ordered pairs of the exhaustive universe of data values with <=3 nodes over {nil false true 0 1 \"\" \"a\" :a 'a} x {list vector map set}; seeded deep triples (v, mutation of v, second mutation) with 11 mutation kinds incl. renamed key with equal count, key bound to nil, list<->vector, same-spelling string/keyword/symbol, nil/false/()/0/\"\"; values rebuilt along 5 construction paths (literal, hash-map, assoc/conj chains in shuffled order, merge, dissoc of an extra key, vec/concat); (= a b) through EVAL is compared with the harness's own structural equality, plus reflexivity, symmetry and transitivity monitors; distinct = universe rows",
+		Rule:   "all ordered pairs of the exhaustive universe of data values with <=3 nodes over {nil false true 0 1 \"\" \"a\" :a 'a} x {list vector map set}; seeded deep triples (v, mutation of v, second mutation) with 11 mutation kinds incl. renamed key with equal count, key bound to nil, list<->vector, same-spelling string/keyword/symbol, nil/false/()/0/\"\"; values rebuilt along 5 construction paths (literal, hash-map, assoc/conj chains in shuffled order, merge, dissoc of an extra key, vec/concat); (= a b) through EVAL is compared with the harness's own structural equality, plus reflexivity, symmetry and transitivity monitors; distinct = universe rows; construction paths include with-meta (also {:type …} metadata and metadata removed again)",
 		Assume: []string{"the oracle canon.LispEqual is the statement's structural equality (list and vector interchangeable, maps by key set and values, sets by members)"},
 		Finish: func(m *fw.Merged) {
 			m.Floor("pairs", 100000)
